@@ -238,6 +238,8 @@ class Gen(object):
                 v = r.choice([n for n in ctx['stylenames'] if len(n) == 1] or [u'N'])
             if a == (L.STYLENS, 'name') and q != (L.STYLENS, 'font-face'):
                 v = ctx['fresh']()
+            elif a == (L.STYLENS, 'name'):
+                v = ctx['fontname'](v)
             out.append((a[0], a[1], v))
         return out
 
@@ -294,7 +296,14 @@ class Gen(object):
             n = u'%s%d' % (r.choice([u'P', u'T', u'N', u'gr', u'ce', u'é']), counter[0])
             names.append(n)
             return n
-        ctx = {'stylenames': [], 'fresh': fresh, 'prefer': {}}
+        fonts_seen = []
+        def fontname(v):
+            # font declarations are keyed by style:name: distinct names, except for a rare deliberate repeat
+            if v in fonts_seen and r.random() > 0.1:
+                v = u'%s %d' % (v, len(fonts_seen))
+            fonts_seen.append(v)
+            return v
+        ctx = {'stylenames': [], 'fresh': fresh, 'prefer': {}, 'fontname': fontname}
         # plan the style names first so that references can point forward
         common_names = [u'Standard', u'Heading', u'S']
         auto_names = [u'P%d' % i for i in range(1, 4)] + [u'T1', u'A', u'gr1', u'ce1', u'dp1']
@@ -554,6 +563,27 @@ def compare_section(rep, what, a, b, ctx):
         rep.add(sig, '%s%s %s' % (ctx['where'], d['path'], json.dumps(dict((k, v) for k, v in d.items() if k != 'path'), default=repr)[:300]))
 
 
+def font_names(forest):
+    return [L.attr(k, L.STYLENS, 'name') for k in forest if k[0] == 'E']
+
+
+def repeated_font_names(forest):
+    fn = font_names(forest)
+    return sorted(set(repr(x) for x in fn if fn.count(x) > 1))
+
+
+def first_of_each_name(forest):
+    seen = []; out = []
+    for k in forest:
+        if k[0] == 'E':
+            nm = L.attr(k, L.STYLENS, 'name')
+            if nm in seen:
+                continue
+            seen.append(nm)
+        out.append(k)
+    return out
+
+
 def compare_docs(rep, s1, s2, pkg1, folder, where=''):
     """s1: snapshot of the built document (before save), s2: of the loaded one"""
     S = L.sections_of(pkg1, folder)
@@ -562,11 +592,16 @@ def compare_docs(rep, s1, s2, pkg1, folder, where=''):
     common_n = [L.style_name(k) for k in (S.styles[4] if S.styles else []) if k[0] == 'E' and (k[1], k[2]) == (L.STYLENS, 'style')]
     reg = [n for n in ca + common_n + sa if n is not None]
     ctx = {'both': set(n for n in reg if reg.count(n) > 1), 'where': where,
-           'nested': any(has_nested_section(s1[k]) for k in ('body', 'styles', 'master-styles', 'automatic-styles', 'settings', 'meta', 'scripts', 'font-face-decls'))}
+           'nested': False}     # (repaired) an inline office:document is ordinary content now: no class of its own
     if s1['mimetype'] != s2['mimetype']:
         rep.add('mimetype-differs', '%s%r vs %r' % (where, s1['mimetype'], s2['mimetype']))
     for sec in ('body', 'styles', 'master-styles', 'font-face-decls', 'settings', 'scripts'):
         a = s1[sec]; b = s2[sec]
+        if sec == 'font-face-decls' and a != b and repeated_font_names(a) and \
+                [k for k in first_of_each_name(a) if k[0] == 'E'] == [k for k in b if k[0] == 'E']:
+            rep.add('font-face-name-repeated', '%sthe document declares the font name(s) %r more than once: only the first declaration of a name is loaded'
+                    % (where, repeated_font_names(a)))
+            continue
         if sec == 'font-face-decls' and folder and a and not b:
             rep.add('subdocument-font-face-decls-dropped', '%s%d font declarations of the sub-document are gone' % (where, len(a)))
             continue
@@ -665,7 +700,7 @@ def compare_generations(rep, p1, p2, s1=None):
             sn = snapshot_at(s1, folder)
         except Exception:
             return False
-        return any(has_nested_section(sn[k]) for k in ('body', 'styles', 'master-styles', 'automatic-styles', 'settings', 'meta', 'scripts', 'font-face-decls'))
+        return False     # (repaired) see compare_docs
     for n in n2:
         if n not in n1:
             rep.add('nested-section-element' if s1 is not None and n.endswith(u'settings.xml') and nested_at(n) else
@@ -709,12 +744,12 @@ def compare_generations(rep, p1, p2, s1=None):
                     S = L.sections_of(p1, folder)
                     names = [L.style_name(k) for sec in (S.content_auto, S.styles, S.styles_auto) if sec for k in sec[4] if k[0] == 'E']
                     both = set(x for x in names if x is not None and names.count(x) > 1)
-                    nested = s1 is not None and any(has_nested_section(snapshot_at(s1, folder)[k]) for k in
+                    nested = False and any(has_nested_section(snapshot_at(s1, folder)[k]) for k in
                                                     ('body', 'styles', 'master-styles', 'automatic-styles', 'settings', 'meta', 'scripts', 'font-face-decls'))
                     for d in ds:
                         sig = 'second-generation-part-differs'
-                        if nested:
-                            sig = 'nested-section-element'
+                        if s1 is not None and 'font-face-decls' in d['path'] and repeated_font_names(snapshot_at(s1, folder)['font-face-decls']):
+                            sig = 'font-face-name-repeated'
                         elif both:
                             sig = 'style-name-collision'
                         elif folder and d['kind'] == 'children' and any('font-face-decls' in x for x in d['a']) and not any('font-face-decls' in x for x in d['b']):
@@ -837,16 +872,18 @@ def run(chk, replay=None):
                              'signatures are predicates on the built document / the first package')
             def deep():
                 G2 = Gen(V, chk.rng, 'thorough')
+                tmp2 = tempfile.mkdtemp(prefix='c04-deep-')      # run() has removed its own scratch directory by now
                 for k in range(1500):
                     rec = json.loads(json.dumps(G2.document()))
                     try:
-                        rep, raw1, d2, s1 = run_recipe(V, rec, tmpdir)
+                        rep, raw1, d2, s1 = run_recipe(V, rec, tmp2)
                     except Exception as e:
                         chk.fail('raises:%s' % type(e).__name__, rec, repr(e)); continue
                     for sig, det in rep.items:
                         chk.fail(sig, rec, det)
                     if chk.failures:
-                        return
+                        break
+                shutil.rmtree(tmp2, ignore_errors=True)
             chk.deep_search = deep
             chk.prove(modules=['OdfModel.Props.C04'], drivers=['drv_load'])
             drv = chk.driver('drv_load')
